@@ -44,7 +44,7 @@ class C04(Check):
             'piecewise-constant signals with 1-6 samples per variable, unaligned break-points, windows longer than the signal, results starting with +-inf; '
             'the returned sample list must have non-decreasing stamps, start at the start of the common domain and, as a right-continuous step function, '
             'equal the tick semantics rhoZ (DenseSem.v) at every tick of the domain (cross-checked against the naive evaluator Dn of Dense.v); '
-            '20% of the cases with bounded operators write the bounds with explicit units (both ends / one end); non-trivial = temporal operator and >= 2 samples; distinct by (formula, signals); plus direct calls of intersection(a, b, method) on random sample lists '
+            '20% of the cases with bounded operators write the bounds with explicit units (both ends / one end); non-trivial = temporal operator and >= 2 samples; distinct by (formula, signals); signals and bounds on a 0.1 s grid (decimal time-stamps); signals of different lengths where a partial arithmetic function is undefined only after the end of the shorter one; plus direct calls of intersection(a, b, method) on random sample lists '
             '(15% malformed: repeated/decreasing stamps) compared list-for-list, exception-for-None, with the proved model DenseMerge.isect')
 
     def gen_cases(self, rng, tier):
@@ -74,6 +74,41 @@ class C04(Check):
         # division, pow, sqrt, exp, ln, log (exact by construction of the signals)
         for (f, sigs) in dense.fancy_cases(rng, 40 if tier == 'quick' else 600):
             cases.append({'f': f, 'nv': 2, 'sigs': sigs, 'n': max(len(x) for x in sigs)})
+        # decimal time-stamps: one tick is 0.1 s, the stamps are k * 0.1 and the bounds b * 0.1 (neither is a binary fraction)
+        Xs, Zs = ('pred', 'geq', ('var', 0), ('const', 0)), ('pred', 'geq', ('var', 1), ('const', 0))
+        decf = [('sincet', 0, 5, Xs, ('sincet', 0, 1, Zs, Xs)), ('since', ('oncet', 3, 8, Xs), Zs), ('implies', Xs, ('evt', 1, 1, ('alwt', 1, 3, Zs))), ('evt', 1, 1, ('evt', 7, 7, ('var', 0))),
+                ('alwt', 1, 1, ('var', 0)), ('and', ('histt', 0, 2, Xs), Zs)]
+        for k in range(12 if tier == 'quick' else 150):
+            f = decf[k % len(decf)]
+            sigs = []
+            for _ in range(2):
+                sg, t = [], 0
+                for _ in range(rng.randint(3, 7)):
+                    sg.append([t, rng.randint(-3, 3)])
+                    t += rng.choice([1, 1, 2, 3])
+                sigs.append(sg)
+            cases.append({'f': f, 'nv': 2, 'sigs': sigs, 'n': max(len(x) for x in sigs), 'dec': 1})
+        # partial arithmetic beyond the common domain: xb is longer than xa and takes, only after the end of xa, a value on which the term is undefined
+        # (division by 0, sqrt / ln of a negative number): the values on the common domain are well defined
+        X, Y = ('var', 0), ('var', 1)
+        for k in range(6 if tier == 'quick' else 60):
+            t = [('a2', 'div', X, Y), ('a1', 'sqrt', ('a2', 'sub', Y, ('const', 1))), ('a1', 'ln', Y), ('a2', 'div', ('const', 4), ('a2', 'sub', Y, ('const', 0)))][k % 4]
+            p = ('pred', rng.choice(['geq', 'leq']), t, ('const', rng.randint(0, 2)))
+            p2 = ('and', p, ('pred', 'geq', X, ('const', 0)))
+            f = rng.choice([p2, p2, ('oncet', 0, 2, p2)] + ([p, ('oncet', 0, 2, p)] if 0 in fml.fvars(p) else []))
+            sx, sy, tx = [], [], 0
+            for _ in range(rng.randint(2, 4)):
+                sx.append([tx, 4 * rng.randint(0, 3)])
+                tx += rng.choice([2, 4])
+            end = sx[-1][0]
+            ty = 0
+            while ty <= end:
+                sy.append([ty, rng.choice([1, 2, 4])])
+                ty += rng.choice([2, 4])
+            if sy[-1][0] != end:
+                sy.append([end, sy[-1][1]])
+            tail = [[end + 2, 0 if k % 4 in (0, 3) else -3], [end + 6, 1]]
+            cases.append({'f': f, 'nv': 2, 'sigs': [sx, sy + tail], 'model_sigs': [sx, sy], 'n': len(sy) + 2, 'beyond': 1})
         # the merge itself, called directly: intersection(a, b, method) against DenseMerge.isect
         nm = 300 if tier == 'quick' else 6000
         for i in range(nm):
@@ -90,13 +125,16 @@ class C04(Check):
             sx = lambda l: '(' + ' '.join('(%d %d)' % (t, v) for t, v in l) + ')'
             return ['(isect %d %s %s)' % (['and', 'or', 'sub', 'add'].index(c['merge']), sx(c['a']), sx(c['b']))]
         used = fml.fvars(c['f'])
-        t0 = max(c['sigs'][i][0][0] for i in used)
-        tend = max(c['sigs'][i][-1][0] for i in used)
-        w = ' '.join(dense.sig_sx(s) for s in c['sigs'])
+        msigs = c.get('model_sigs', c['sigs'])
+        t0 = max(msigs[i][0][0] for i in used)
+        tend = max(msigs[i][-1][0] for i in used)
+        w = ' '.join(dense.sig_sx(s) for s in msigs)
         return ['(dn std %s (%s))' % (fml.to_sx(c['f']), w), '(rhoz std %s (%s) %d %d)' % (fml.to_sx(c['f']), w, t0, max(tend, t0)),
                 '(deval %s (%s))' % (fml.to_sx(c['f']), w)]
 
     def spec_text(self, c):
+        if c.get('dec'):
+            return 'out = ' + fml.to_text(c['f'], lambda b, e: '[%s,%s]' % ('%.1f' % (b / 10.0), '%.1f' % (e / 10.0)))
         if c.get('unit_style'):
             import random
             from harness.densex import dense_bound
@@ -109,8 +147,9 @@ class C04(Check):
         if 'merge' in c:
             return [{'monitor': 'dense-merge', 'op': c['merge'], 'a': c['a'], 'b': c['b']}]
         used = fml.fvars(c['f'])
+        to_impl = (lambda sg: [[t * 0.1, float(v)] for t, v in sg]) if c.get('dec') else dense.to_impl
         return [{'monitor': 'dense-offline', 'vars': fml.VARS[:c['nv']], 'spec': self.spec_text(c),
-                 'calls': [['evaluate', [[fml.VARS[i], dense.to_impl(c['sigs'][i])] for i in used]]]}]
+                 'calls': [['evaluate', [[fml.VARS[i], to_impl(c['sigs'][i])] for i in used]]]}]
 
     def judge(self, c, mlines, ires):
         if mlines[0].startswith('ERROR'):
@@ -133,6 +172,9 @@ class C04(Check):
         used = fml.fvars(c['f'])
         t0 = max(c['sigs'][i][0][0] for i in used)
         end = max(c['sigs'][i][-1][0] for i in used)
+        if c.get('beyond'):
+            # the model saw the signals cut at the end of the common domain; only that domain is compared
+            end = min(c['sigs'][i][-1][0] for i in used)
         det = {'spec': self.spec_text(c), 'signals_ticks': c['sigs'], 'tick_s': dense.SCALE,
                'expected': {'source': 'Dn (Dense.v): dense-time semantics on the common domain', 'samples_ticks': [[t, fml.val_sx(v)] for t, v in ref]}}
         i = ires[0]
@@ -142,10 +184,15 @@ class C04(Check):
         if r['status'] != 'ok':
             return 'violation', dict(det, observed=r)
         out = dense.from_impl(r['value'])
+        if c.get('dec'):
+            # ticks of 0.1 s: the result is read at the instants k * 0.1 themselves
+            out = [[(t * dense.SCALE) / 0.1 if t != math.inf else t, v] for t, v in out]
+            out = [[round(t) if t != math.inf and abs(t - round(t)) < 1e-18 else t, v] for t, v in out]
+            det['tick_s'] = 0.1
         det['observed_value'] = r['value']
         # the implementation-layer model of the whole visitor (DenseVisitor.deval, proved against rhoZ for signals that start
         # at 0: C04_visitor) must return the same list, sample for sample — also where the semantics is missed (late starts)
-        if len(mlines) > 2 and mlines[2].startswith('DEVAL'):
+        if len(mlines) > 2 and mlines[2].startswith('DEVAL') and not c.get('beyond') and not c.get('dec'):
             got = [[t, v] for t, v in out if t != math.inf]
             if mlines[2] == 'DEVAL NONE':
                 return 'violation', dict(det, kind='list', expected={'source': 'DenseVisitor.deval: an exception'}, observed={'samples_ticks': got})
@@ -174,6 +221,11 @@ class C04(Check):
             return 'model-vs-spec', dict(det, note='the naive evaluator Dn disagrees with the tick semantics rhoZ', dn=ref)
         return 'ok', None
 
+    def still_fails(self, model, c, shape=None):
+        if c.get('beyond') or c.get('dec'):
+            return False, None          # two signal sets that must stay in step / a fixed time scale: not shrunk
+        return Check.still_fails(self, model, c, shape)
+
     def signature(self, c, detail):
         if 'merge' in c:
             return {'shape': 'merge', 'op': c['merge']}
@@ -182,6 +234,10 @@ class C04(Check):
         late = any(c['sigs'][i][0][0] != 0 for i in used if i < len(c['sigs']))
         late_timed = any(c['sigs'][i][0][0] != 0 for i in timed_vars(c['f']) if i < len(c['sigs']))
         sig['shape'] = 'late_start_bounded' if late_timed else ('late_start' if late else 'start_at_0')
+        if c.get('beyond'):
+            sig['shape'] = 'partial_arithmetic_beyond_the_common_domain'
+        if c.get('dec'):
+            sig['shape'] = 'decimal_time_stamps'
         if isinstance(detail, dict) and detail.get('kind') == 'list':
             # the sample list differs from the model of the visitor: never the known finding, whatever the signals look like
             sig['shape'] = 'list_differs_from_visitor_model'
@@ -195,7 +251,7 @@ class C04(Check):
     def key(self, c):
         if 'merge' in c:
             return json.dumps(c, sort_keys=True)
-        return json.dumps([fml.to_sx(c['f']), c['sigs']])
+        return json.dumps([fml.to_sx(c['f']), c['sigs'], c.get('dec'), c.get('beyond')])
 
     def features(self, c):
         if 'merge' in c:
